@@ -128,6 +128,13 @@ class FixedGrid(Grid):
         if self.localize_t0 and k>=0:
             yield (t0_local[k]+Tk==t0_local[k+1],{})
 
+    def bounds_interval(self, T_local, t0_local, k, T, N):
+        """Enforce min/max on control interval k (for grids without a cheaper characterisation)"""
+        if self.min==0 and self.max==inf:
+            return
+        n = self.normalized(N)
+        yield (self.min <= (T*(n[k+1]-n[k]) <= self.max), {})
+
     def get_t0_local(self, opti, k, t0, N):
         if self.localize_t0:
             if k==0:
@@ -205,14 +212,15 @@ class UniformGrid(FixedGrid):
 
         for i,e in enumerate(FixedGrid.bounds_T(self, T_local, t0_local, k, T, N)):
             yield e
-            if i==0 and k==0:
-                if self.localize_T:
-                    yield (self.min <= (T_local[0] <= self.max), {})
+        if k==0:
+            # All intervals are equal: bounding the first one is enough
+            if self.localize_T:
+                yield (self.min <= (T_local[0] <= self.max), {})
+            else:
+                if self.min==0 and self.max==inf:
+                    pass
                 else:
-                    if self.min==0 and self.max==inf:
-                        pass
-                    else:
-                        yield (self.min <= (T/N <= self.max), {})
+                    yield (self.min <= (T/N <= self.max), {})
 
     def normalized(self, N):
         return list(np.linspace(0.0, 1.0, N+1))
@@ -234,6 +242,13 @@ class FunctionGrid(FixedGrid):
 
     def normalized(self, N):
         return self.normalized_fun(N)
+
+    def bounds_T(self, T_local, t0_local, k, T, N):
+        for e in self.bounds_interval(T_local, t0_local, k, T, N):
+            yield e
+        for e in FixedGrid.bounds_T(self, T_local, t0_local, k, T, N):
+            yield e
+
 class DensityGrid(FixedGrid):
     def __init__(self, density, integrator='cvodes',integrator_options=None,**kwargs):
         """
@@ -264,6 +279,12 @@ class DensityGrid(FixedGrid):
     def __call__(self, t0, T, N):
         n = self.normalized(N)
         return t0 + hcat(n)*T
+
+    def bounds_T(self, T_local, t0_local, k, T, N):
+        for e in self.bounds_interval(T_local, t0_local, k, T, N):
+            yield e
+        for e in FixedGrid.bounds_T(self, T_local, t0_local, k, T, N):
+            yield e
 
     def normalized(self, N):
         if N in self.cache: return self.cache[N]
@@ -338,14 +359,15 @@ class GeometricGrid(FixedGrid):
         return self.normalized(N)[1]
 
     def bounds_T(self, T_local, t0_local, k, T, N):
+        # Interval sizes are monotone: bounding the first and the last one is enough
         if self.localize_T:
-            if k==0 or k==-1:
+            if k==0 or k==N-1:
                 yield (self.min <= (T_local[k] <= self.max), {})
         else:
             n = self.normalized(N)
             if k==0:
                 yield (self.min <= (T*n[1] <= self.max),{})
-            if k==-1:
+            if k==N-1 and N>1:
                 yield (self.min <= (T*(n[-1]-n[-2]) <= self.max),{})
         for e in FixedGrid.bounds_T(self, T_local, t0_local, k, T, N):
             yield e
